@@ -422,7 +422,28 @@ func c03IsNumeric(fn string) bool {
 	return fn == "Min" || fn == "Max" || fn == "MinMax" || fn == "Range"
 }
 
-var c03Types = []string{"int", "string", "struct"}
+var c03Types = []string{"int", "string", "struct", "ptr"}
+
+// element type *int: abstract k > 0 is ONE pointer (the same on every use), abstract 0 is nil; all pointees hold the same number, so
+// two different elements are never == but always "deep equal" - a comparison that follows the pointers confuses them
+var c03Cells [64]int
+var c03CellIdx = map[*int]int{}
+
+func concPtr(e int) *int {
+	if e == 0 {
+		return nil
+	}
+	p := &c03Cells[e%64]
+	*p = 1
+	c03CellIdx[p] = e % 64
+	return p
+}
+func absPtr(p *int) int {
+	if p == nil {
+		return 0
+	}
+	return c03CellIdx[p]
+}
 
 func concStr(e int) string {
 	if e == 0 {
@@ -468,6 +489,8 @@ func c03Run(c *c03Case, ty string, nilEmpty bool) c03Out {
 		return c03Exec(c, func(e int) int { return e }, func(x int) int { return x }, nilEmpty)
 	case "string":
 		return c03Exec(c, concStr, absStr, nilEmpty)
+	case "ptr":
+		return c03Exec(c, concPtr, absPtr, nilEmpty)
 	}
 	return c03Exec(c, concStruct, absStruct, nilEmpty)
 }
